@@ -228,6 +228,27 @@ static void record(vh::Trace& tr, const Cfg& c, const PDI& pdi, const std::strin
         tr.emit(j);
       }
     }
+    // History of the CALLER's container: the API fills a vector supplied by the caller.  ONE vector, pre-filled with
+    // rubbish, is re-used for a seeded sequence of bins (shuffled, so that the number of pairs goes up and down; the
+    // spatial-only flag alternates as well); what comes back is recorded as BPR and must be explained exactly like BP:
+    // the answer must not depend on what the vector held before.
+    {
+      std::vector<DetectionPositionPair<>> reused(37, DetectionPositionPair<>(DetectionPosition<>(9999, 9999, 1), DetectionPosition<>(9998, 9998, 2), 7));
+      std::vector<size_t> order;
+      for (size_t i = 0; i < bins.size(); ++i) order.push_back(i);
+      for (size_t i = order.size(); i > 1; --i) std::swap(order[i - 1], order[rng.range(0, (int)i - 1)]);
+      const size_t n = std::min<size_t>(order.size(), (size_t)std::max(6L, budget / 6));
+      for (size_t k = 0; k < n; ++k) {
+        const Bin& b = bins[order[k]];
+        for (int spatial = 0; spatial < (Api<PDI>::has_flag ? 2 : 1); ++spatial) {
+          if (tm > 0 && tm % 2 == 0 && spatial == 0) continue;   // (see BN above)
+          Api<PDI>::all(pdi, reused, b, spatial != 0);
+          vh::Json j("BPR"); emit_bin(j, b);
+          j.boolean("spatialOnly", spatial != 0 || !Api<PDI>::has_flag).num("n", Api<PDI>::num(pdi, b, spatial != 0)).arr2("pairs", pair_list(reused));
+          tr.emit(j);
+        }
+      }
+    }
   }
 }
 
